@@ -62,8 +62,8 @@ type Summary struct {
 	Calls      int            `json:"calls"`
 	WallS      float64        `json:"wall_s"`
 	Counters   map[string]int `json:"counters"`
-	Shapes     []uint64       `json:"shapes"`      // distinct non-trivial run shapes
-	Interleave []uint64       `json:"interleave"`  // distinct scheduler decision sequences (C08)
+	Shapes     []uint64       `json:"shapes"`     // distinct non-trivial run shapes
+	Interleave []uint64       `json:"interleave"` // distinct scheduler decision sequences (C08)
 	Nontrivial int            `json:"nontrivial"`
 	DetChecked int            `json:"det_checked"`
 	DetBad     int            `json:"det_bad"`
@@ -71,7 +71,7 @@ type Summary struct {
 	FirstSeed  int64          `json:"first_seed"`
 	LastSeed   int64          `json:"last_seed"`
 	RaceBuild  bool           `json:"race_build"`
-	Seqs       []string       `json:"seqs"` // distinct (path, class, class) prefixes of emission plans
+	Seqs       []string       `json:"seqs"`      // distinct (path, class, class) prefixes of emission plans
 	SeqSpace   int            `json:"seq_space"` // size of that space: paths x (1 + classes + classes^2)
 }
 
